@@ -15,62 +15,8 @@ use vsupport::{harness, nd, witness};
 pub mod env;
 pub mod purge;
 pub mod lazy;
+pub mod twin;
 
 pub use env::*;
 
 include!("variants.rs");
-
-pub fn inc_stub(i: &std::sync::atomic::AtomicUsize) -> Option<usize> {
-    use std::sync::atomic::Ordering;
-    let p = i.load(Ordering::Relaxed);
-    if p == usize::MAX {
-        None
-    } else {
-        i.store(p + 1, Ordering::Relaxed);
-        Some(p)
-    }
-}
-pub fn dec_stub(i: &std::sync::atomic::AtomicUsize) -> Option<usize> {
-    use std::sync::atomic::Ordering;
-    let p = i.load(Ordering::Relaxed);
-    if p == 0 {
-        None
-    } else {
-        i.store(p - 1, Ordering::Relaxed);
-        Some(p)
-    }
-}
-
-#[cfg(kani)]
-#[kani::proof]
-#[kani::unwind(7)]
-#[kani::stub(core::fmt::write, vsupport::fmt_write_stub)]
-#[kani::stub(specs::world::entity::atomic_increment, inc_stub)]
-#[kani::stub(specs::world::entity::atomic_decrement, dec_stub)]
-fn x_stub_atomic() {
-    let mut world = World::new();
-    let _st = pattern_entities_into(&mut world.write_resource::<EntitiesRes>(), [0, 1, 0]);
-    let e = world.entities().create();
-    let mut i = 0;
-    while i < e.id() && i < 5 {
-        i += 1;
-    }
-    assert!(e.id() == 1);
-    std::mem::forget(world);
-}
-
-#[cfg(kani)]
-#[kani::proof]
-#[kani::unwind(7)]
-#[kani::stub(core::fmt::write, vsupport::fmt_write_stub)]
-fn x_nostub_atomic() {
-    let mut world = World::new();
-    let _st = pattern_entities_into(&mut world.write_resource::<EntitiesRes>(), [0, 1, 0]);
-    let e = world.entities().create();
-    let mut i = 0;
-    while i < e.id() && i < 5 {
-        i += 1;
-    }
-    assert!(e.id() == 1);
-    std::mem::forget(world);
-}
